@@ -52,3 +52,43 @@ package store
 //@ func CAStore.GetCacheFileReader
 //@   requires s != nil && s.cacheStore != nil && (s.memCache == nil || s.memCache.entries != nil)
 //@   assert memory_bytes_verified: at NewBufferFileReader#0 :: hashok(sliceid(entry.Data), name)
+
+// ---- cleanup (property C10) ----------------------------------------------------------------------
+//
+// op.lat is the ghost map of last-access times stored on disk (contracts/externs/fileop.spec);
+// m.clk.now is the monotone clock reading.
+
+// readyForDeletion: ready exactly when the file's age exceeds a positive TTL, or it has a recorded
+// last access that is more than TTI ago (both measured with clock readings taken during the call).
+//@ func cleanupManager.readyForDeletion
+//@   requires m != nil && m.clk != nil && op != nil && info != nil
+//@   modifies m.clk.now, every metadata.LastAccessTime.Time, every metadata.Persist.Value
+//@   ensures ready_only_if_idle_or_old: result0 ==> (ttl > 0 && m.clk.now - info.mtime > ttl) || ((name in op.lat) && m.clk.now - op.lat[name] > tti)
+//@   ensures old_is_ready: ttl > 0 && old(m.clk.now) - info.mtime > ttl ==> result0 && result1 == nil
+//@   ensures idle_is_ready: result1 == nil && !result0 ==> !(name in op.lat) || old(m.clk.now) - op.lat[name] <= tti
+//@   ensures error_is_not_ready: result1 != nil ==> !result0
+
+// ttlBasedCleanup: DeleteFile is called only for a file that readyForDeletion reported ready, and
+// never once the lower usage threshold has been reached.
+//@ func cleanupManager.ttlBasedCleanup
+//@   requires m != nil && m.clk != nil && op != nil
+//@   modifies *
+//@   assert only_ready_files: at FileOp.DeleteFile#0 :: ready && !lowThresholdBreached
+
+// customPolicyBasedCleanup: files are deleted in the order the policy sorted them, only while bytes
+// remain to be freed.
+//@ func cleanupManager.customPolicyBasedCleanup
+//@   requires m != nil && op != nil
+//@   modifies *
+//@   assert only_while_needed: at FileOp.DeleteFile#0 :: remainDeleteBytes > 0
+
+// cachedInAgentPolicy: files already served to a consumer sort before the others; among those,
+// files surely cached by an agent first; otherwise least recently accessed first.
+//@ specfunc adiff(f_access time.Time, f_download time.Time) int = f_download - f_access >= 0 ? f_download - f_access : f_access - f_download
+//@ func cachedInAgentPolicy
+//@   requires left.downloadTime - left.accessTime > 0 - 9223372036854775808 && right.downloadTime - right.accessTime > 0 - 9223372036854775808
+//@   ensures consumed_first: adiff(left.accessTime, left.downloadTime) > 1000000000 && adiff(right.accessTime, right.downloadTime) <= 1000000000 ==> result < 0
+//@   ensures consumed_first_sym: adiff(left.accessTime, left.downloadTime) <= 1000000000 && adiff(right.accessTime, right.downloadTime) > 1000000000 ==> result > 0
+//@   ensures agent_first: (adiff(left.accessTime, left.downloadTime) > 1000000000) == (adiff(right.accessTime, right.downloadTime) > 1000000000) && adiff(left.accessTime, left.downloadTime) > 2700000000000 && adiff(right.accessTime, right.downloadTime) <= 2700000000000 ==> result < 0
+//@   ensures agent_first_sym: (adiff(left.accessTime, left.downloadTime) > 1000000000) == (adiff(right.accessTime, right.downloadTime) > 1000000000) && adiff(left.accessTime, left.downloadTime) <= 2700000000000 && adiff(right.accessTime, right.downloadTime) > 2700000000000 ==> result > 0
+//@   ensures lru_otherwise: (adiff(left.accessTime, left.downloadTime) > 1000000000) == (adiff(right.accessTime, right.downloadTime) > 1000000000) && (adiff(left.accessTime, left.downloadTime) > 2700000000000) == (adiff(right.accessTime, right.downloadTime) > 2700000000000) && left.accessTime - right.accessTime > 0 - 9223372036854775808 && left.accessTime - right.accessTime < 9223372036854775808 ==> (result < 0 <==> left.accessTime < right.accessTime) && (result > 0 <==> left.accessTime > right.accessTime)
